@@ -9,17 +9,23 @@ CLAIM = {
           'printable identifier, all records and layouts), bit_identified_c13 (TD.C13.encode of any non-empty list of well-formed '
           'passes), dat_identified (TD.C14.Spec.print f in every layout, with the DAT trial parse instantiated by the C14 model '
           'canParseFile and proved to accept the file), lis_identified (TD.C05.encode L (header :: records) for every valid '
-          'layout and TIF mode, with the deep test _lis made concrete as TD.C20.lisTest = C05 pad-option scan + reader, C06 FileIndex, '
-          'TIF state, and PROVED to answer the code of the layout when the file has >= 100 physical records (lis_identified_short: or '
-          'the stated scan condition) and building the index over the records does not raise), plus the '
+          'layout and TIF mode, with the deep test _lis made concrete as TD.C20.lisTest = the repaired two-round loop (pr_limit 100, then '
+          'the whole file; every pad option with the maximal count tried in dict order, options that raise or give an empty index '
+          'skipped; C05 pad scan + reader, C06 FileIndex), PROVED to answer the code of the layout when in one of the two rounds no '
+          'option over-counts (or the file has >= 100 physical records) and building the index does not raise; '
+          'lis_answer_is_tif_state: for EVERY byte string the answer, if any, is the code of the TIF state of the first 12 bytes, '
+          'whichever option succeeded), plus the '
           'prefix-level rp66_identified / bit_identified / lis_family_identified_partial / dat_text_identified and the scanner-level '
           'las12/las20_identified_partial. The model is tied to the code by a correspondence run on valid files of every format, '
           'all truncations <= 400 bytes, mutations, random bytes and adversarial text. "Raises nothing / terminates promptly / '
           'leaves the file readable" are properties of the CPython code, not of the model: they are exercised (partial), with every '
           'exception an oracle failure.'),
- 'note': ('Partial: residual hypotheses of lis_identified: >= 100 physical records (else the pad-scan heuristic condition of '
-          'pad_reader_refines_cond), FileIndex does not raise on the record contents (hidx), file < 2^32-24 bytes; lisTest reads whole '
-          'records where FileIndex reads parts (equal on written files by read_refines; compared with _lis on written files in stream '
+ 'note': ('Partial: residual hypotheses of lis_identified: the scan condition (>= 100 physical records, or no pad option over-counts in '
+          'the 100-scan, or none in the whole-file scan), FileIndex does not raise on the record contents (hidx), file < 2^32-24 '
+          'bytes. TD.C05.encode writes no PAD bytes: padded files (input class of the repaired defect 7ad9eab) are covered by '
+          'kernel-evaluated examples (ExamplesPad.lean), the oracle and the lis-deep stream, not by a theorem; one sub-class is still '
+          'misidentified by the repaired code (finding C20-lis-padded-wrong-option-overcounts). lisTest reads whole records where '
+          'FileIndex reads parts (equal on written files by read_refines; compared with _lis on written and padded files in stream '
           'lis-deep, files outside the C06 model scope skipped); LAS is proved at the level of the line scanner, not against TD.C09.print (whose number styles for VERS '
           'produce files the code does not identify: known finding FC20d). dat_identified needs "fifth byte is not V" (FC20e). '
           'Exceptions, timing and stream position are tested, not proved. Trusted: Lean kernel; Python re/struct/codecs (cp500).'),
@@ -34,12 +40,14 @@ RULE = ('size independence: for every format, files whose header part (declarati
         'version lines, DAT-like text with extreme fields, LIS-like record structures with garbage, very long lines. A case is '
         'non-trivial when it is a valid file that must be recognised, or an arbitrary string on which at least one signature test '
         'gets past its first comparison; distinct by the hash of the bytes.')
-ASSUMPTIONS = ['documented type codes are the 25 labels of FUNCTION_ID_MAP / BINARY_FILE_TYPE_DESCRIPTIONS at the time of writing',
+ASSUMPTIONS = ['a LIS file whose physical records are followed by null PAD bytes to a multiple of 2 or 4 (LIS-79 2.3.1.1) is a valid LIS file and must be identified as LIS',
+               'documented type codes are the 25 labels of FUNCTION_ID_MAP / BINARY_FILE_TYPE_DESCRIPTIONS at the time of writing',
                'a valid LIS file begins with a reel, tape or file header record whose name fields are printable ASCII; TIF-marked files '
                'whose first record is exactly 276 bytes are excluded (they carry the BIT signature)',
                'a valid DAT file has at least one data channel beside UTIM DATE TIME (RE_DATA_HEADER_DEFINITION requires it)',
                'promptness = at most 2 s CPU per call for inputs up to 1 MB (the LIS test indexes the whole file, cost is linear in size)',
                'a conformant RP66V1 storage unit label has a positive sequence number and a positive maximum record length']
+EXTRA_LEAN_TARGETS = ('TD.C20.ExamplesPad',)     # kernel-evaluated padded LIS examples of the repaired defect's input class
 TRUSTED = ['modelled, not verified: Python re (the RP66 patterns are classified into matcher shapes by exhaustive comparison over a 12-letter '
            'alphabet at the field width; RE_LAS_VERSION_LINE is transcribed as a scanner), bytes.strip/lstrip, line iteration of binary files, '
            'int() on two printable characters, cp500 decoding',
@@ -270,9 +278,10 @@ class Batch:
             if not res['pos_ok']:
                 ctx.fail(mk(), f'file not positioned at / readable from the start after the call [{stream}]', stream=stream)
             if expect is not None and out != expect:
+                fid = finding_if_wrong(b, out) if callable(finding_if_wrong) else finding_if_wrong
                 ctx.fail(mk(), f'valid {expect} file identified as {out!r} ({json.dumps(origin, default=repr)[:300]}) [{stream}]',
-                         finding=finding_if_wrong, stream=stream)
-            if expect is not None and self.bft.is_lis_file_type(out) != (expect in ('LIS', 'LISt', 'LIStr')):
+                         finding=fid, stream=stream)
+            if expect is not None and out == expect and self.bft.is_lis_file_type(out) != (expect in ('LIS', 'LISt', 'LIStr')):
                 ctx.fail(mk(), f'is_lis_file_type({out!r}) wrong for a valid {expect} file [{stream}]', stream=stream)
         if check_path and not out.startswith('EXC:') and out != 'TIMEOUT':
             ctx.count('oracle_cases')
@@ -293,11 +302,7 @@ class Batch:
             self.pending.append((stream, origin, b, out, sub_dat(self.bft, b), lis))
             # the concrete deep test `TD.C20.lisTest` (C05 pad scan + reader, C06 index) against `_lis` itself, on complete
             # written LIS files (the model obtains the records by whole-record reads, exact when every record is complete)
-            padded_plain = expect == 'LIS' and (origin.get('gen') == 'lispad' or origin.get('sized') == 'lispad')
-            # (plain files with PAD bytes are left out: when the pad options tie the code reads them with pad 0, mis-reads the
-            #  record after the first padded one and still answers LIS because skipping does not notice the end of file —
-            #  the model's whole-record read does notice; see notes)
-            if expect in ('LIS', 'LISt', 'LIStr') and not padded_plain and len(b) <= LIS_DEEP_MAX and stream.split(':')[0] in ('valid', 'sized'):
+            if expect in ('LIS', 'LISt', 'LIStr') and len(b) <= LIS_DEEP_MAX and stream.split(':')[0] in ('valid', 'sized', 'corpus'):
                 try:
                     deep = self.bft._lis(io.BytesIO(b)) or '-'
                 except BaseException:
@@ -406,6 +411,34 @@ def ebcdic_blocks(rng):
             cards.append('C' + num[:2].ljust(2) + ''.join(rng.choice('ABC xyz09') for _ in range(77)))
         out.append(''.join(cards).encode('cp500') + b'\x00' * rng.choice([0, 10]))
     return out
+
+
+def lis_overcount_finding(true_mod):
+    """Classifier of known finding C20-lis-padded-wrong-option-overcounts for a plain null-padded file whose own pad option
+    is (true_mod, False): the answer is '' and, in both rounds, an option other than the file's own counts more records."""
+    def classify(b, out):
+        if out != '':
+            return None
+        from TotalDepth.LIS.core import File
+        for lim in (100, 0):
+            d = {(k.pad_modulo, k.pad_non_null): v for k, v in File.scan_file_with_different_padding(io.BytesIO(b), True, lim).items()}
+            if not (0 < d[(true_mod, False)] < max(d.values())):
+                return None
+        return 'C20-lis-padded-wrong-option-overcounts'
+    return classify
+
+
+def lispad_finding(name, expect, rec):
+    """finding classifier for a generated padded plain LIS file (None for everything else)"""
+    if name != 'lispad' or expect != 'LIS' or rec.get('nonnull'):
+        return None
+    if rec.get('padbreak') == 'short':
+        return lis_overcount_finding(2)
+    if rec.get('padbreak') == 'late':
+        return lis_overcount_finding(rec['mod'])
+    if rec.get('padded') and rec['padded'][0] == 'mod' and rec['padded'][1] in (2, 4):
+        return lis_overcount_finding(rec['padded'][1])
+    return None
 
 
 def odd_version_las(rng):
@@ -567,6 +600,9 @@ def run(ctx):
     # ---- 0. permanent regression corpus (inputs that once made binary_file_type raise)
     for name, b in CORPUS:
         B.run_one('corpus', b, {'corpus': name}, check_path=True)
+    from gen import c20_corpus
+    for name, expect, b in c20_corpus.items():
+        B.run_one('corpus', b, {'corpus': name}, expect=expect, check_path=True)
     B.flush()
     # ---- 0b. two input classes found while stating the recognition theorems against the C09 / C14 printers (known findings)
     for b, expect in odd_version_las(rng):
@@ -595,7 +631,8 @@ def run(ctx):
                 b, expect, rec = generate_sized(name, target, seed)
                 if name in ('lis', 'lispad') and expect != 'LIS' and rec.get('first_pr') == 276:
                     expect = None
-                B.run_one('sized:' + name, b, {'sized': name, 'target': target, 'seed': seed}, expect=expect, check_path=(d == 0 and kk % 4 == 0))
+                B.run_one('sized:' + name, b, {'sized': name, 'target': target, 'seed': seed}, expect=expect, check_path=(d == 0 and kk % 4 == 0),
+                          finding_if_wrong=lispad_finding(name, expect, rec))
         B.flush()
     # ---- 1c. path histories: the answer is a function of the bytes, not of what was at that path before
     run_histories(ctx, bft)
@@ -610,7 +647,7 @@ def run(ctx):
             origin = {'gen': name, 'seed': seed}
             if name in ('lis', 'lispad') and expect != 'LIS' and rec.get('first_pr') == 276:
                 expect = None      # the stated exclusion: TIF-marked, first record exactly 276 bytes (BIT signature)
-            B.run_one('valid:' + name, b, origin, expect=expect, check_path=(k % 10 == 0))
+            B.run_one('valid:' + name, b, origin, expect=expect, check_path=(k % 10 == 0), finding_if_wrong=lispad_finding(name, expect, rec))
             if k < ctx.n(2, 6):
                 valid.append((b, expect, origin))
             if k == 0:
